@@ -299,7 +299,9 @@ def r5_for_me_forall(run):
                      "vanished", fi.loc())
         return
     loop = outer[0]
-    inside = {id(x) for x in ast.walk(loop)}
+    # (the loop's own else clause runs after the last restriction: it is the
+    # "all of them matched" exit, not part of an iteration)
+    inside = {id(x) for st in loop.body for x in ast.walk(st)}
     bad = [r for r in cfg.by_kind("return")
            if id(r.ast) in inside and not is_falsy_const(r.ast.value)]
     run.check(not bad, "R5", key,
@@ -520,6 +522,64 @@ def r8_came_from(run):
               witness=bcfg.describe_path(wit) if wit else None)
 
 
+def r10_asynchop_provenance(run):
+    run.rule("R10", "the switch that turns the solicitation / destination "
+             "checks on (asynchop) is off only for the back-channel bindings "
+             "SOAP and PAOS: Entity._parse_response sets it truthy for every "
+             "other binding value (HTTP-Artifact, URI, none ...)")
+    from .. import canon
+    m = run.model
+    fi = m.func("entity.Entity._parse_response")
+    cfg = cfg_of(fi, m)
+    consts = sorted({x.id for x in ast.walk(fi.node) if isinstance(x, ast.Name)
+                     and x.id.startswith("BINDING_")} |
+                    {"BINDING_SOAP", "BINDING_PAOS", "BINDING_HTTP_REDIRECT",
+                     "BINDING_HTTP_POST"})
+    # a binding value that is none of the named ones
+    env = {canon.query("binding == %s" % c)[0]: "F" for c in consts}
+    env[canon.query("'asynchop' in kwargs")[0]] = "F"
+    sets = []
+    for nd in cfg.by_kind("stmt"):
+        s = nd.ast
+        if isinstance(s, ast.Assign) and isinstance(s.targets[0], ast.Subscript) \
+                and unparse(s.targets[0].value) == "kwargs" and \
+                isinstance(s.targets[0].slice, ast.Constant) and \
+                s.targets[0].slice.value == "asynchop":
+            sets.append((nd, s.value))
+        for c in cfg.own_calls(nd):
+            if call_name(c) == "setdefault" and len(c.args) == 2 and \
+                    isinstance(c.args[0], ast.Constant) and \
+                    c.args[0].value == "asynchop":
+                sets.append((nd, c.args[1]))
+    run.floor("R10", "places where asynchop is decided", len(sets), 1)
+    reach = []
+    for nd, v in sets:
+        wit = cfg.flag_search(cfg.entry, {}, lambda n, vd, t=nd.id: n == t,
+                              assume={k: val for k, val in env.items()})
+        if wit is not None:
+            reach.append((nd, v))
+    ok = bool(reach)
+    bad = []
+    for nd, v in reach:
+        from ..dataflow import inline_expr
+        val = canon.eval3(inline_expr(cfg.rd, v, nd.id), env)
+        if val != "T":
+            ok = False
+            bad.append(unparse(v))
+    run.check(ok, "R10", fi.qual + "::other-binding=>asynchop",
+              "for a binding that is neither SOAP nor PAOS the checks stay on",
+              "for a binding value other than the named ones asynchop is set "
+              "from %s (not truthy): a response that arrives over HTTP-Artifact "
+              "/ URI skips the InResponseTo, allow_unsolicited and Destination "
+              "checks" % bad, fi.loc(reach[0][0].ast) if reach else fi.loc())
+    init = m.func("response.StatusResponse.__init__")
+    d = init.param_default("asynchop")
+    run.check(d is not None and is_true_const(d), "R10",
+              init.qual + "::asynchop-default", "defaults to True",
+              "asynchop defaults to %s" % (unparse(d) if d is not None else None),
+              init.loc(), nontrivial=False)
+
+
 def check(run):
     run.explanation = (
         "C05: solicitation gate (flag-sensitive search under assumed test "
@@ -539,5 +599,6 @@ def check(run):
     r6_recipient(run)
     r7_own_endpoints(run)
     r8_came_from(run)
+    r10_asynchop_provenance(run)
     from ..common_rules import misplaced_rule
     misplaced_rule(run, "R9", {"client_base", "response", "client"}, "response parsing")
